@@ -253,7 +253,11 @@ def st_ops(max_ops):
     rate = st.fixed_dictionaries({"op": st.just("rate"), "c": c, "reg": st.integers(0, len(REGRESSORS) - 1)})
     prep = st.fixed_dictionaries({"op": st.just("pre"), "c": c, "pre": pre})
     mp = st.fixed_dictionaries({"op": st.just("map"), "feat": st.sampled_from(sorted(FEATURES))})
-    op = st.one_of(fit0, fit0, fit, fit, fit, rate, rate, rate, prep, mp)
+    # a multi-pass fit whose first pass succeeds and whose last pass has too few points: the curve then carries
+    # success=False next to parameters of the earlier pass and counts as unfitted
+    fitfail = st.fixed_dictionaries({"op": st.just("fit"), "c": c, "model": st.just(0), "pre": st.just(0),
+                                     "wcp": st.just(0), "seg": st.just(0), "fail": st.sampled_from(["relcp", "abs"])})
+    op = st.one_of(fit0, fit0, fit, fit, fit, rate, rate, rate, prep, mp, fitfail)
     return st.sampled_from([0, 3, 8]).flatmap(lambda m: st.lists(op, min_size=m, max_size=max_ops))
 
 
@@ -817,6 +821,13 @@ def _check_qmap(case, ctx, root, nanite):
                 kw["weight_cp"] = WEIGHT_CP[op["wcp"]]
             if SEGMENTS[op["seg"]] is not None:
                 kw["segment"] = SEGMENTS[op["seg"]]
+            if op.get("fail") == "relcp":
+                kw.update(range_type="relative cp", range_x=(-1e-13, 1e-13))
+            elif op.get("fail") == "abs":
+                kw.update(range_type="absolute", range_x=(1.0, 1.0 + 1e-9))
+            else:
+                # (the settings persist on the curve: an ordinary fit asks for the full range again)
+                kw.update(range_type="absolute", range_x=(0, 0))
             if ms["pre"] != pre:
                 ms["rated"] = False
             ms["pre"] = pre
